@@ -412,6 +412,9 @@ func Generate(r *gen.R, p Params) *H {
 			for j := range h.Parents[i].Refs {
 				if r.Chance(0.6) {
 					h.Parents[i].Refs[j].Pre = true
+					if r.Chance(0.3) { // a location but no version: still unannotated
+						h.Parents[i].Refs[j].Pre, h.Parents[i].Refs[j].Loc = false, true
+					}
 				}
 			}
 		}
@@ -430,6 +433,9 @@ func Generate(r *gen.R, p Params) *H {
 				for j := range h.Parents[i].Refs {
 					if r.Chance(0.5) {
 						h.Parents[i].Refs[j].Pre = true
+						if r.Chance(0.3) {
+							h.Parents[i].Refs[j].Pre, h.Parents[i].Refs[j].Loc = false, true
+						}
 					}
 				}
 			}
